@@ -381,8 +381,13 @@ func (f *frame) execInstr(b *ssa.BasicBlock, instr ssa.Instruction, st *State) {
 		} else {
 			f.zeroInitObj(st, ref, et)
 			f.tagAllocKind(st, id, et, false)
-			if nt, ok := et.(*types.Named); ok && nt.Obj().Pkg() != nil && nt.Obj().Pkg().Path() == "strings" && nt.Obj().Name() == "Builder" {
+			if isStringsBuilder(et) {
 				c.assume(st, fmt.Sprintf("(= (select %s %s) str_empty)", st.Heap(sbHeap(g)), ref))
+			} else if isStruct(et) {
+				// builder fields of a new object are empty too (their ghost content lives at the interior key)
+				for _, p := range builderFieldPaths(et, "", 0) {
+					c.assume(st, fmt.Sprintf("(= (select %s %s) str_empty)", st.Heap(sbHeap(g)), interiorKey(ref, p)))
+				}
 			}
 			f.setVal(in, f.mkVal(ref, in.Type()))
 		}
@@ -749,6 +754,13 @@ func (f *frame) execConvert(in *ssa.Convert, st *State) {
 		// string(bytes): uninterpreted function of the current content; modelled as a fresh string with the right length
 		n := f.c.declare(valName(in), SStr)
 		f.c.assume(st, fmt.Sprintf("(= (Str_len %s) (slen %s))", n, x.T))
+		if sl, ok := in.X.Type().Underlying().(*types.Slice); ok {
+			if b, ok := sl.Elem().Underlying().(*types.Basic); ok && b.Kind() == types.Uint8 {
+				// string(bytes): byte i of the string is element i of the slice (as it is now)
+				h := st.Heap(g.TE.CellHeap(sl.Elem()))
+				f.c.assume(st, fmt.Sprintf("(forall ((i Int)) (! (=> (and (<= 0 i) (< i (slen %s))) (= (Str_at %s i) (select %s (selem %s i)))) :pattern ((Str_at %s i))))", x.T, n, h, x.T, n))
+			}
+		}
 		f.setVal(in, Val{T: n, Typ: in.Type()})
 	case from == SInt && to == SStr:
 		uf := g.UF("str_of_rune", []string{SInt}, SStr)
@@ -788,4 +800,28 @@ func (f *frame) execTypeAssert(in *ssa.TypeAssert, st *State) {
 	}
 	c.oblige(st, f.path, "safety:assert", okT, "type assertion holds", in.Pos())
 	f.def(in, payload, st)
+}
+
+func isStringsBuilder(t types.Type) bool {
+	nt, ok := t.(*types.Named)
+	return ok && nt.Obj().Pkg() != nil && nt.Obj().Pkg().Path() == "strings" && nt.Obj().Name() == "Builder"
+}
+
+// builderFieldPaths: flattened paths of the strings.Builder fields of struct type t (through inline structs).
+func builderFieldPaths(t types.Type, prefix string, depth int) []string {
+	st, ok := t.Underlying().(*types.Struct)
+	if !ok || depth > 4 {
+		return nil
+	}
+	var out []string
+	for i := 0; i < st.NumFields(); i++ {
+		f := st.Field(i)
+		p := joinPath(prefix, f.Name())
+		if isStringsBuilder(f.Type()) {
+			out = append(out, p)
+		} else if isStruct(f.Type()) {
+			out = append(out, builderFieldPaths(f.Type(), p, depth+1)...)
+		}
+	}
+	return out
 }
